@@ -1,6 +1,7 @@
 """C22 - Stripping source-retention options is exact."""
 import os
 from vlib import *
+from termlib import clist, intern_numbers
 
 ID = "C22"
 # set to True (or VERIF_RETENTION_REPAIRED=1) once the recursive strip is committed to /repo
@@ -404,15 +405,6 @@ class Intern:
         return self.t[s]
 
 
-def clist(c, n, xs):
-    """a list as nested applications of the typed constructor abbreviations of HEADER (no notation, no implicit
-    argument to infer: coqc parses and type-checks this several times faster than [a; b; ...])"""
-    out = n
-    for x in reversed(xs):
-        out = "(%s %s %s)" % (c, x, out)
-    return out
-
-
 def unk_term(it, u):
     return "NN" if u == "" else "(NC %d NN)" % it("u:" + u)
 
@@ -537,7 +529,8 @@ def run(ctx):
                           "(got %s, protoc %s)" % (d["at"] or "the file", d["got"], d["protoc"]),
                           {"file": "corpus/C22/retention.proto", "element": d["at"], "got": d["got"], "protoc": d["protoc"]})
             break
-    mism, err = coq_eval_mismatches("cases_C22", HEADER, terms, "ret_chk", shard_size=ctx.budget(18, 100))
+    header, terms = intern_numbers(HEADER, terms, "N")
+    mism, err = coq_eval_mismatches("cases_C22", header, terms, "ret_chk", shard_size=ctx.budget(18, 100))
     if err:
         raise RuntimeError(err)
     for k in mism:
